@@ -49,7 +49,7 @@ def explore(res, tier, seed, model_ok=True):
     nbase = 30 if tier == 'quick' else 250
     res.rule = ('%d base scenarios (17 fixed - three of them wss:// connections, whose socket has unwrap()/pending() like an SSLSocket - covering every yield point of run(): Connecting, ConnectFail, Connected, housekeeping Poll, Unresponsive, Ready, messages, Closing, Closed, Rejected, ProtocolError, Disconnected; rest random) '
                 'x every event index x 4 abandonment mechanisms (generator close(), break+drop, exception in handler, exception leaving a with-block); '
-                'a sample of the same abandonments as the second connection on an object whose first connection ran in a with-block / raised / was closed by the server; oracle: simulated socket and selector both closed afterwards; non-trivial = abandonment at an event where a socket exists; distinct by (scenario, index, mechanism)') % nbase
+                'a sample of the same abandonments as the second connection on an object whose first connection ran in a with-block / raised / was closed by the server; the generator closed while ANOTHER THREAD is inside a send (plain, compressed, ping, close()) at every sync point of that send (deterministic scheduler of C11); oracle: simulated socket and selector both closed afterwards; non-trivial = abandonment at an event where a socket exists; distinct by (scenario, index, mechanism)') % nbase
     bases = base_scenarios(rng, nbase)
     base_pairs = coreutil.run_pairs(bases, model_ok)
     scs, meta = [], []
@@ -81,6 +81,7 @@ def explore(res, tier, seed, model_ok=True):
             res.failures.append(dict(cls='leak-at-' + evname, what='abandoning at %s by %s leaves %s open' % (evname, mech, 'socket' if 'sock=1' in end else 'selector'),
                                      input=line[-1200:], scenario=js, observed=end))
     coreutil.check_corr(res, pairs)
+    explore_threads(res, tier)
     # the same abandonments on an object with a history: earlier connections on the SAME WebSocket object that were used
     # inside a with-block / abandoned in other ways (state kept on the object must not keep the new connection's generator alive)
     g = Scenario([]).good_reply()
@@ -152,7 +153,41 @@ def explore(res, tier, seed, model_ok=True):
     res.samples += [pairs[9][1][-300:], pairs[-1][1][-300:]]
 
 
+def thread_cases(tier):
+    """the consumer walks away (the loop thread closes the event generator) WHILE another thread is inside a send - before it, inside
+    the write lock at every sync point (also of a compressed send: compress, flush, the chunks of sendall), after it: whatever the
+    interleaving, the socket is closed once both threads are done.  (harness/sched.py, loop program `ab`; oracle only)"""
+    import props.c11 as c11
+    out = []
+    shapes = [(0, ['st0']), (1, ['st1']), (2, ['sb1']), (1, ['sb1', 'st0']), (0, ['pi']), (0, ['cl'])]
+    for z, kinds in shapes:
+        prog = [('cl=1000,' + b'bye'.hex()) if k == 'cl' else c11.prog(0, [k])[0] for k in kinds]
+        for j in range(0, 14 if tier == 'quick' else 24):
+            for back in ((0,) if tier == 'quick' else (0, 1, 3)):
+                out.append(dict(z=z, progs=[prog, ['ab']], mode='sync', family='abandon-while-sending',
+                                schedule=[0] * j + [1] * (3 + back) + [0] * back + [1] * 40))
+    return out
+
+
+def explore_threads(res, tier):
+    import thrutil
+    cases = thread_cases(tier)
+    for c, r in zip(cases, runner.parallel_map('thrutil', 'real_case', cases, chunk=20)):
+        if '__crash__' in r:
+            res.crashes.append(r); continue
+        res.case(('abandon-while-sending', c['z'], tuple(c['progs'][0]), tuple(t for t, _ in r['steps'])), nontrivial=True)
+        res.count('abandon_while_another_thread_sends')
+        if r['problems']:
+            res.diffs.append(dict(input=c, real=' '.join('%d:%s' % x for x in r['steps'])[-1200:], model='(harness) ' + '; '.join(r['problems'])[:800]))
+        if not r['flags']['shut']:
+            res.failures.append(dict(cls='leak-while-sending', what='the event generator was closed while another thread was inside %s; both threads have finished and the socket is still open' % c['progs'][0],
+                                     input=dict(threads=c), observed=' '.join('%d:%s' % x for x in r['steps'])[-1200:]))
+
+
 def replay(rp):
+    if isinstance(rp.get('input'), dict) and 'threads' in rp['input']:
+        import thrutil
+        return thrutil.replay(dict(input=rp['input']['threads']))
     inp = rp.get('input')
     if isinstance(inp, dict) and 'previous' in inp:
         for t in coreutil.real_chain(inp['previous'] + [inp['next']]):
